@@ -72,7 +72,7 @@ class Scale(tuple):
         # Accidentals only work for et scales? Why not a fraction?
         spo = self.tuning._spo
         l = len(self)
-        base_key = (spo * (degree // l)) + self[int(degree) % l]
+        base_key = (spo * (degree // l)) + self.tuning[self[int(degree) % l]]
         if acc == 0:
             return base_key
         else:
